@@ -43,7 +43,9 @@ func channelOf(msg []byte) (int, bool) {
 
 var eot = []byte{0xFF, 0x2F, 0x00}
 
-func run(c Case) (res ev.Result) {
+func run(c Case) ev.Result { return runStage(c, 0) }
+
+func runStage(c Case, stage int) (res ev.Result) {
 	src := smf.New()
 	src.TimeFormat = adapt.TimeFormat(c.Division)
 	var tr smf.Track
@@ -130,88 +132,128 @@ func run(c Case) (res ev.Result) {
 		res.Classes = append(res.Classes, "total-ticks>=2^31")
 	}
 
-	if dst.Format() != 1 {
-		res.Violation = fmt.Sprintf("result format %d, want 1", dst.Format())
-		return
-	}
-	if d, err := adapt.Division(dst.TimeFormat); err != nil || d != c.Division {
-		res.Violation = fmt.Sprintf("time division changed: %v (%04X), source %04X", dst.TimeFormat, d, c.Division)
-		return
-	}
-	// The statement fixes: everything that is not a channel message on the first track, every
-	// channel's messages on one track of their own, absolute ticks and relative order kept,
-	// every track terminated by exactly one end-of-track. It does not fix the number or order of
-	// the channel tracks (empty ones may exist) nor where a channel track's end-of-track sits.
-	if len(dst.Tracks) == 0 {
-		res.Violation = "result has no tracks"
-		return
-	}
-	compare := func(name string, got smf.Track, w []absMsg) string {
-		eotFixed := len(w) > 0 && bytes.Equal(w[len(w)-1].msg, eot)
-		var wantEOT int64
-		if eotFixed {
-			wantEOT = w[len(w)-1].abs
-			w = w[:len(w)-1]
+	verify := func(dst smf.SMF) string {
+		if dst.Format() != 1 {
+			return fmt.Sprintf("result format %d, want 1", dst.Format())
 		}
-		if len(got) == 0 || !bytes.Equal(got[len(got)-1].Message, eot) {
-			return fmt.Sprintf("%s is not terminated by an end-of-track event", name)
+		if d, err := adapt.Division(dst.TimeFormat); err != nil || d != c.Division {
+			return fmt.Sprintf("time division changed: %v (%04X), source %04X", dst.TimeFormat, d, c.Division)
 		}
-		var gabs int64
-		for j := 0; j < len(got)-1 || j < len(w); j++ {
-			if j >= len(got)-1 {
-				return fmt.Sprintf("%s: message %d (% X at tick %d) is lost; track has %d messages, want %d", name, j, w[j].msg, w[j].abs, len(got)-1, len(w))
+		// The statement fixes: everything that is not a channel message on the first track, every
+		// channel's messages on one track of their own, absolute ticks and relative order kept,
+		// every track terminated by exactly one end-of-track. It does not fix the number or order of
+		// the channel tracks (empty ones may exist) nor where a channel track's end-of-track sits.
+		if len(dst.Tracks) == 0 {
+			return "result has no tracks"
+		}
+		compare := func(name string, got smf.Track, w []absMsg) string {
+			eotFixed := len(w) > 0 && bytes.Equal(w[len(w)-1].msg, eot)
+			var wantEOT int64
+			if eotFixed {
+				wantEOT = w[len(w)-1].abs
+				w = w[:len(w)-1]
 			}
-			gabs += int64(got[j].Delta)
-			if j >= len(w) {
-				return fmt.Sprintf("%s: unexpected extra event %d (% X at tick %d)", name, j, []byte(got[j].Message), gabs)
+			if len(got) == 0 || !bytes.Equal(got[len(got)-1].Message, eot) {
+				return fmt.Sprintf("%s is not terminated by an end-of-track event", name)
 			}
-			if gabs != w[j].abs || !bytes.Equal(got[j].Message, w[j].msg) {
-				return fmt.Sprintf("%s event %d: got % X at tick %d, want % X at tick %d", name, j, []byte(got[j].Message), gabs, w[j].msg, w[j].abs)
+			var gabs int64
+			for j := 0; j < len(got)-1 || j < len(w); j++ {
+				if j >= len(got)-1 {
+					return fmt.Sprintf("%s: message %d (% X at tick %d) is lost; track has %d messages, want %d", name, j, w[j].msg, w[j].abs, len(got)-1, len(w))
+				}
+				gabs += int64(got[j].Delta)
+				if j >= len(w) {
+					return fmt.Sprintf("%s: unexpected extra event %d (% X at tick %d)", name, j, []byte(got[j].Message), gabs)
+				}
+				if gabs != w[j].abs || !bytes.Equal(got[j].Message, w[j].msg) {
+					return fmt.Sprintf("%s event %d: got % X at tick %d, want % X at tick %d", name, j, []byte(got[j].Message), gabs, w[j].msg, w[j].abs)
+				}
+			}
+			gabs += int64(got[len(got)-1].Delta)
+			if eotFixed && gabs != wantEOT {
+				return fmt.Sprintf("%s: end-of-track at tick %d, the source's end-of-track is at tick %d", name, gabs, wantEOT)
+			}
+			return ""
+		}
+		if v := compare("track 0 (non-channel messages)", dst.Tracks[0], metaWant); v != "" {
+			return v
+		}
+		seen := map[int]bool{}
+		for i := 1; i < len(dst.Tracks); i++ {
+			got := dst.Tracks[i]
+			ch := -1
+			for _, e := range got {
+				if c, ok := channelOf(e.Message); ok {
+					ch = c
+					break
+				}
+			}
+			name := fmt.Sprintf("track %d", i)
+			if ch < 0 {
+				// a track without channel messages: must be empty apart from its end-of-track
+				if v := compare(name+" (no channel messages)", got, nil); v != "" {
+					return v
+				}
+				continue
+			}
+			if seen[ch] {
+				return fmt.Sprintf("channel %d is spread over more than one track", ch)
+			}
+			seen[ch] = true
+			if v := compare(fmt.Sprintf("%s (channel %d)", name, ch), got, chWant[ch]); v != "" {
+				return v
 			}
 		}
-		gabs += int64(got[len(got)-1].Delta)
-		if eotFixed && gabs != wantEOT {
-			return fmt.Sprintf("%s: end-of-track at tick %d, the source's end-of-track is at tick %d", name, gabs, wantEOT)
+		for ch := 0; ch < 16; ch++ {
+			if len(chWant[ch]) > 0 && !seen[ch] {
+				return fmt.Sprintf("the %d messages of channel %d are on no track of their own", len(chWant[ch]), ch)
+			}
 		}
 		return ""
 	}
-	if v := compare("track 0 (non-channel messages)", dst.Tracks[0], metaWant); v != "" {
-		res.Violation = v
+	if res.Violation = verify(dst); res.Violation != "" {
 		return
 	}
-	seen := map[int]bool{}
-	for i := 1; i < len(dst.Tracks); i++ {
-		got := dst.Tracks[i]
-		ch := -1
-		for _, e := range got {
-			if c, ok := channelOf(e.Message); ok {
-				ch = c
-				break
-			}
-		}
-		name := fmt.Sprintf("track %d", i)
-		if ch < 0 {
-			// a track without channel messages: must be empty apart from its end-of-track
-			if v := compare(name+" (no channel messages)", got, nil); v != "" {
-				res.Violation = v
-				return
-			}
-			continue
-		}
-		if seen[ch] {
-			res.Violation = fmt.Sprintf("channel %d is spread over more than one track", ch)
-			return
-		}
-		seen[ch] = true
-		if v := compare(fmt.Sprintf("%s (channel %d)", name, ch), got, chWant[ch]); v != "" {
-			res.Violation = v
-			return
-		}
+	// The result belongs to the caller, and the conversion is a function of the source: a second
+	// result is taken, then the caller appends an event to every track of the first one. Neither
+	// the other tracks of the first result nor the second result may change.
+	var dst2 smf.SMF
+	if p := ev.TryTimeout(ev.Watchdog, func() { dst2 = src.ConvertToSMF1() }); p != "" {
+		res.Violation = "second ConvertToSMF1: " + p
+		return
 	}
-	for ch := 0; ch < 16; ch++ {
-		if len(chWant[ch]) > 0 && !seen[ch] {
-			res.Violation = fmt.Sprintf("the %d messages of channel %d are on no track of their own", len(chWant[ch]), ch)
-			return
+	view := dst
+	view.Tracks = make([]smf.Track, len(dst.Tracks))
+	for i := range dst.Tracks {
+		n := len(dst.Tracks[i])
+		dst.Tracks[i] = append(dst.Tracks[i], smf.Event{Delta: 9, Message: smf.Message{0xFF, 0x06, 0x01, 'x'}}, smf.Event{Delta: 0, Message: smf.Message{0xFF, 0x2F, 0x00}})
+		view.Tracks[i] = dst.Tracks[i][:n]
+	}
+	if v := verify(view); v != "" {
+		res.Violation = "after the caller appended an event to every track of the result: " + v
+		return
+	}
+	if v := verify(dst2); v != "" {
+		res.Violation = "second result of the same source, after the caller appended to the tracks of the first: " + v
+		return
+	}
+	// A later, independent conversion of an equal source (built again from the same calls) after
+	// the caller has overwritten the channel messages of an earlier result in place.
+	if !c.ViaFile && stage == 0 {
+		for _, tr := range dst2.Tracks {
+			for _, e := range tr {
+				// channel messages only (what re-channelling or transposing a result does): the
+				// end-of-track message of a result is the exported variable smf.EOT itself
+				if len(e.Message) > 0 && e.Message[0] < 0xF0 {
+					for k := range e.Message {
+						e.Message[k] ^= 0x09
+					}
+				}
+			}
+		}
+		again := runStage(c, 1)
+		if again.Violation != "" {
+			res.Violation = "conversion of an equal source after the channel messages of an earlier result were overwritten in place: " + again.Violation
 		}
 	}
 	return
